@@ -161,4 +161,83 @@ theorem handleLoginF_false_db (st : St) (now : Nat) (req : Req) (good : Bool) (u
     · rfl
     · simp only [evalLoginF]; split <;> rfl
 
+
+/-! ### the two steps of logout, interleaved with other goroutines -/
+
+theorem logout_two_steps (st : St) (tok : Nat) : logout st tok = logoutFile (logoutMem st tok) tok := rfl
+
+/-- no restart among the events -/
+def noRestartEv : List Ev → Bool
+  | [] => true
+  | .op .restart :: _ => false
+  | _ :: evs => noRestartEv evs
+
+/-- the token is issued and absent from the memory map -/
+def MemGone (st : St) (tok : Nat) : Prop := tok < st.nextTok ∧ st.mem tok = none
+
+theorem memGone_step {st : St} {tok now : Nat} (h : MemGone st tok) (o : Op) (ho : o ≠ .restart) :
+    MemGone (step st now o).2 tok ∧ (o = .request tok → (step st now o).1 = .auth false) := by
+  obtain ⟨hlt, hm⟩ := h
+  cases o with
+  | login req good user =>
+    refine ⟨?_, fun e => by cases e⟩
+    simp only [step, handleLogin_eq]
+    rcases login_tables st now req.peer good user with ⟨e1, e2, _⟩ | ⟨e1, e2, _⟩
+    · exact ⟨by rw [e1]; exact hlt, by rw [e2]; exact hm⟩
+    · have hne : tok ≠ st.nextTok := by omega
+      exact ⟨by rw [e1]; omega, by rw [e2]; simp [FMap.set, hne, hm]⟩
+  | request t =>
+    simp only [step]
+    by_cases ht : t = tok
+    · subst ht
+      have : checkSession st now t = (.notFound, st) := by simp [checkSession, hm]
+      rw [this]
+      exact ⟨⟨hlt, hm⟩, fun _ => by simp⟩
+    · have hne : tok ≠ t := fun e => ht e.symm
+      refine ⟨?_, fun e => by cases e; exact absurd rfl ht⟩
+      unfold checkSession
+      cases hmt : st.mem t with
+      | none => exact ⟨hlt, hm⟩
+      | some s =>
+        simp only
+        by_cases hexp : s.expire ≤ now32 now
+        · simp only [hexp, if_true]
+          exact ⟨hlt, by simp [FMap.erase, hne, hm]⟩
+        · simp only [hexp, if_false]
+          split
+          · exact ⟨hlt, by simp [FMap.set, hne, hm]⟩
+          · exact ⟨hlt, hm⟩
+  | logout t =>
+    refine ⟨⟨hlt, ?_⟩, fun e => by cases e⟩
+    simp only [step, logout, FMap.erase]
+    split
+    · rfl
+    · exact hm
+  | restart => exact absurd rfl ho
+
+theorem memGone_run (tok : Nat) : ∀ (evs : List Ev) (st : St) (now : Nat),
+    MemGone st tok → noRestartEv evs = true →
+    MemGone (runM st now evs).1 tok ∧
+    ∀ e ∈ traceM st now evs, e.2.1 = .request tok → e.2.2 = .auth false
+  | [], _, _, h, _ => ⟨h, fun e he => by simp [traceM] at he⟩
+  | .advance d :: evs, st, now, h, hn => memGone_run tok evs st (now + d) h (by simpa [noRestartEv] using hn)
+  | .op o :: evs, st, now, h, hn => by
+    have ho : o ≠ .restart := by
+      rintro rfl; simp [noRestartEv] at hn
+    have hn' : noRestartEv evs = true := by
+      cases o <;> first | simpa [noRestartEv] using hn | exact absurd rfl ho
+    obtain ⟨h1, h2⟩ := memGone_step (now := now) h o ho
+    obtain ⟨r1, r2⟩ := memGone_run tok evs _ now h1 hn'
+    refine ⟨r1, ?_⟩
+    intro e he hr
+    simp only [traceM, List.mem_cons] at he
+    rcases he with rfl | he
+    · exact h2 hr
+    · exact r2 e he hr
+
+theorem timesGE_zero : ∀ (evs : List Ev) (now : Nat), timesGE 0 now evs
+  | [], _ => trivial
+  | .advance d :: evs, now => timesGE_zero evs (now + d)
+  | .op _ :: evs, now => ⟨Nat.zero_le _, timesGE_zero evs now⟩
+
 end AGH.C12
